@@ -17,7 +17,7 @@ CHECKS = {
         "assumptions": ["slot lengths are whole seconds and parent timestamps are whole seconds (header field is in seconds)",
                         "the parent's miner is a deputy of the signing term unless the height is 1 or the first block of a term"],
         "units": [
-            {"name": "enumerate", "test": "TestC13Enumerate", "quick": {"timeout": 600}, "thorough": {"timeout": 3000}},
+            {"name": "enumerate", "test": "TestC13Enumerate", "quick": {"shards": 5, "timeout": 600}, "thorough": {"shards": 9, "timeout": 3000}},
             {"name": "random", "test": "TestC13Random", "quick": {"checks": 20000, "timeout": 600}, "thorough": {"checks": 200000, "shards": 8, "timeout": 3000}},
         ],
     },
@@ -158,7 +158,9 @@ CHECKS["C15"] = {
             "blocks: the valid next block damaged and re-signed by the deputy in turn, consistent blocks the miner path assembles from hostile transactions, orphans at extreme heights, and an equivocation script "
             "(two blocks of one deputy for one height, his orphans parked before and delivered again after). Also delivered as the answer to the protocol handshake. Codes outside the protocol (0, 1, 0x0f..0x1f, 0x20, 2^32-1) included. "
             "Oracles: process survives; peak live heap <= 64 MiB + 64 x payload bytes; afterwards a fresh peer is registered, a status request is answered within 30 s and (when the head did not move) the valid next block is inserted within 30 s. "
-            "non-trivial = at least one message that is neither truncated nor random (it decodes at least partly); distinct by description digest.",
+            "non-trivial = at least one message that is neither truncated nor random (it decodes at least partly); distinct by description digest. "
+            "flood: 10241..10400 orphan blocks at distinct heights (batches of 50 / 200 / 1000) and / or as many confirms for unknown blocks at distinct heights, i.e. more than the 10240 heights either cache holds before it empties itself; "
+            "afterwards the liveness probes above, on a fresh connection and on the flooding connection itself.",
     "level_text": "Generated hostile inputs (byte streams, frames, structure-aware mutated protocol messages, absurd blocks / confirms / transactions) against the real transport and protocol manager, with survival, live-heap and liveness oracles; "
                   "exploration bounded by message count and mutation depth. Thorough tier adds coverage-guided native fuzzing of the frame reader.",
     "level_note": "Deadlock is decided by generous bounds (30 s on an otherwise idle node). Block requests spanning more than 200000 heights are excluded and counted: respBlocks then loops for minutes per request, "
@@ -168,6 +170,7 @@ CHECKS["C15"] = {
     "units": [
         {"name": "frames", "test": "TestC15Frames", "quick": {"checks": 250, "shards": 4, "timeout": 900}, "thorough": {"checks": 6000, "shards": 8, "timeout": 3400}},
         {"name": "messages", "test": "TestC15Messages", "quick": {"checks": 150, "shards": 8, "timeout": 900}, "thorough": {"checks": 4000, "shards": 16, "timeout": 3400}},
+        {"name": "flood", "test": "TestC15Flood", "quick": {"checks": 2, "shards": 3, "timeout": 900}, "thorough": {"checks": 10, "shards": 6, "timeout": 3400}},
         {"name": "fuzz", "fuzz": "FuzzFrameReader", "test": "FuzzFrameReader", "thorough": {"fuzztime": "180s", "workers": 16, "timeout": 600}},
     ],
 }
